@@ -17,6 +17,14 @@ func verifH_C12_states() {
 	case 3:
 		c.Close()
 	}
+	// a persisted publish accepted through the real API whose submission error is still unread
+	var apiEx <-chan error
+	if state != 3 {
+		ex0, perr0 := c.PublishAtLeastOnce([]byte{'q'}, "q")
+		if perr0 == nil {
+			apiEx = ex0
+		}
+	}
 	var pend []chan error
 	for _, e := range o.q1 {
 		pend = append(pend, e.ex)
@@ -77,6 +85,24 @@ func verifH_C12_states() {
 		st, e := verifExState(ch)
 		verifAssert(st == 2, "C12: pending exchange must hold exactly one error and stay open after ReadSlices reported ErrClosed")
 		verifAssert(errors.Is(e, ErrClosed), "C12: pending exchange error is not ErrClosed")
+	}
+	if apiEx != nil {
+		// whatever the submission left on the exchange, ErrClosed comes last and the channel stays open
+		var last error
+		n := 0
+		for {
+			select {
+			case e, ok := <-apiEx:
+				verifAssert(ok, "C12: exchange closed although the transfer was never acknowledged")
+				last = e
+				n++
+				continue
+			default:
+			}
+			break
+		}
+		verifAssert(n >= 1 && errors.Is(last, ErrClosed), "C12: exchange of a pending persisted publish did not receive ErrClosed")
+		verifReach("api-exchange")
 	}
 	st, e := verifExState(subDone)
 	verifAssert(st == 2 && (errors.Is(e, ErrBreak) || errors.Is(e, ErrClosed)), "C12: pending subscribe not released")
